@@ -599,4 +599,6 @@ def run(run: Run):
         run.floor('C16.R5', 6)
     run.floor('C16.R3', 3)
     run.floor('C16.R4', 3)
+    from .common import shared_mechanisms as _shared
+    _shared(run, 'C16', 8, ['stored-values', 'literals', 'overrides'])
     return INFO
